@@ -344,8 +344,53 @@ def file_level(case, obs):
     return None
 
 
-def run_pipeline(case):
+def via_text(case):
+    """a third of the cases read their input assembly the way the command does: from AGP text through the
+    parser (rows added one by one), not from ready-made objects"""
+    if "via_text" in case:
+        return bool(case["via_text"])
+    h = sum(sc_len(sc) for sc in case["input"]["scaffolds"]) + 3 * len(case["pretext"]["scaffolds"])
+    return h % 3 == 0
+
+
+def input_assembly(case):
     inp = A.assembly_to_obj(case["input"], "input")
+    if via_text(case):
+        import io
+
+        from tola.assembly.format import format_agp, format_tpf
+        from tola.assembly.parser import parse_agp, parse_tpf
+
+        try:
+            buf = io.StringIO()
+            rows_ = [r for sc in case["input"]["scaffolds"] for r in sc["rows"]]
+            tpf_able = (all(r[0] == "G" or (r[4] in (1, -1) and not r[5] and r[2] >= 0) for r in rows_)
+                        and all(sc["rows"] and sc["rows"][0][0] == "F" for sc in case["input"]["scaffolds"])
+                        and all(r[0] == "F" or r[2] in ("scaffold", "contig") for r in rows_))
+            if tpf_able and sum(len(sc["rows"]) for sc in case["input"]["scaffolds"]) % 2 == 0:
+                format_tpf(inp, buf)
+                again = parse_tpf(io.StringIO(buf.getvalue()), "input")
+            else:
+                format_agp(inp, buf)
+                again = parse_agp(io.StringIO(buf.getvalue()), "input")
+            # only for plain names and tags (what AGP text carries faithfully is C05's matter); whether the
+            # reader then builds the same assembly is part of what is under test here
+            import re as _re
+
+            plain = _re.compile(r"[A-Za-z0-9_.:|-]+\Z")
+            words = [sc["name"] for sc in case["input"]["scaffolds"]] + [
+                w for sc in case["input"]["scaffolds"] for r in sc["rows"] for w in ([r[1]] + list(r[5]) if r[0] == "F" else [r[2]])]
+            names_ = [sc["name"] for sc in case["input"]["scaffolds"]]
+            if (all(plain.match(w) for w in words) and all(sc["rows"] for sc in case["input"]["scaffolds"])
+                    and all(a_ != b_ for a_, b_ in zip(names_, names_[1:]))):
+                return again
+        except Exception:
+            pass
+    return inp
+
+
+def run_pipeline(case):
+    inp = input_assembly(case)
     ptx_json = case["pretext"]
     hdr = list(ptx_json.get("header", []))
     if ptx_json.get("bpt") is not None:
